@@ -441,11 +441,37 @@ void binary_j(std::string const& s, std::string const& r1, std::string const& r2
     std::exit(2);
 }
 
+// the numbered (operation, representations) tables, exported by TLC with the "static" input
+std::vector<std::vector<std::string>> g_utable, g_btable, g_mtable;
+void load_table(json const& j, std::vector<std::vector<std::string>>& t)
+{
+    t.clear();
+    for (auto const& row : j) {
+        std::vector<std::string> r;
+        for (auto const& e : row) { r.push_back(e.get<std::string>()); }
+        t.push_back(r);
+    }
+}
+std::vector<std::string> const& row_of(std::vector<std::vector<std::string>> const& t, json const& n)
+{
+    size_t k = n.get<size_t>();
+    if (k < 1 or k > t.size()) {
+        std::fprintf(stderr, "combination number %zu outside the table (static input missing?)\n", k);
+        std::exit(2);
+    }
+    return t[k - 1];
+}
+
 template <int I, int... Js>
 void dispatch(json const& in, std::integer_sequence<int, Js...> seq)
 {
     std::string fam = in["fam"];
-    if (fam == "static") { return statics<I>(seq); }
+    if (fam == "static") {
+        load_table(in["utable"], g_utable);
+        load_table(in["btable"], g_btable);
+        load_table(in["mtable"], g_mtable);
+        return statics<I>(seq);
+    }
     if (in["i"].get<int>() != I) {
         std::fprintf(stderr, "input for period index %d given to the driver built for %d\n", in["i"].get<int>(), I);
         std::exit(2);
@@ -453,20 +479,23 @@ void dispatch(json const& in, std::integer_sequence<int, Js...> seq)
     i128 c = unwide(in["c"]);
     if (fam == "u") {
         int j = in["j"];
-        for (auto const& t : in["ok"]) {
+        for (auto const& n : in["ok"]) {
+            auto const& t  = row_of(g_utable, n);
             std::string op = t[0], rf = t[1], rt = t[2];
             ((j == Js + 1 ? unary_j<I, Js + 1>(op, rf, rt, c) : void()), ...);
         }
     } else if (fam == "b") {
         int j   = in["j"];
         i128 c2 = unwide(in["c2"]);
-        for (auto const& t : in["ok"]) {
+        for (auto const& n : in["ok"]) {
+            auto const& t = row_of(g_btable, n);
             std::string s = t[0], r1 = t[1], r2 = t[2];
             ((j == Js + 1 ? binary_j<I, Js + 1>(s, r1, r2, c, c2) : void()), ...);
         }
     } else if (fam == "m") {
         long k = in["k"];
-        for (auto const& t : in["ok"]) {
+        for (auto const& n : in["ok"]) {
+            auto const& t = row_of(g_mtable, n);
             std::string s = t[0], r = t[1];
             if (r == "i64") {
                 member<I, I64>(s, c, k);
